@@ -33,7 +33,10 @@ type staticStep struct {
 	Rec        *Rec
 }
 
-type staticCase struct{ Steps []staticStep }
+type staticCase struct {
+	Steps []staticStep
+	Alloc string // allocator behind Memory_Malloc / Memory_Free while the history runs: goheap | poison | client
+}
 
 func (sc *staticCase) replay(upto int) map[string]interface{} {
 	var st []interface{}
@@ -41,7 +44,7 @@ func (sc *staticCase) replay(upto int) map[string]interface{} {
 		s := sc.Steps[i]
 		st = append(st, map[string]interface{}{"compressed": s.Compressed, "plain_entry": s.PlainEntry, "rec": recReplay("rec", s.Compressed, s.Rec)["rec"]})
 	}
-	return map[string]interface{}{"kind": "static", "steps": st}
+	return map[string]interface{}{"kind": "static", "steps": st, "alloc": sc.Alloc}
 }
 
 // noStderr runs f with file descriptor 2 on /dev/null (the pool reports its growth with the builtin println)
@@ -80,6 +83,7 @@ func staticDecode(st staticStep, ser []byte) (rec *Rec, reser []byte, pan string
 	}
 	if p := utxo.Serialize(u, nil); p != nil {
 		reser = exact(*p)
+		utxo.Memory_Free(p) // the consumers of the pooled decoder give the buffer back (poison: filled with 0xDD; client: its slot is the next one handed out)
 	}
 	return
 }
@@ -87,6 +91,8 @@ func staticDecode(st staticStep, ser []byte) (rec *Rec, reser []byte, pan string
 // runHistory plays the steps; returns the index of the first step whose result is not the stored record (-1: none)
 func runHistory(sc *staticCase, report bool) (bad int, what string) {
 	defer setMode(false)
+	setAlloc(sc.Alloc)
+	defer setAlloc("goheap")
 	for i, st := range sc.Steps {
 		c := st.Compressed && !st.PlainEntry
 		setMode(c)
@@ -139,7 +145,10 @@ func checkStatic(kind string, sc *staticCase) {
 	for _, st := range sc.Steps {
 		fmt.Fprint(&kb, st.Compressed, st.PlainEntry, st.Rec.line())
 	}
-	r.Eval("static:"+kind, kb.String())
+	if sc.Alloc == "" {
+		sc.Alloc = "goheap"
+	}
+	r.Eval("static-"+sc.Alloc+":"+kind, sc.Alloc+kb.String())
 	for i, st := range sc.Steps {
 		if i > 0 {
 			a, b := sc.Steps[i-1].Rec, st.Rec
@@ -170,9 +179,9 @@ func checkStatic(kind string, sc *staticCase) {
 	}
 	// minimise: the shortest suffix of the history before the failing step that still fails (in this process the pool
 	// also carries what earlier cases left; a replay starts from a fresh pool, so the history must be self-contained)
-	best := &staticCase{Steps: sc.Steps[:bad+1]}
+	best := &staticCase{Steps: sc.Steps[:bad+1], Alloc: sc.Alloc}
 	for from := bad - 1; from >= 0; from-- {
-		cand := &staticCase{Steps: append([]staticStep{}, sc.Steps[from:bad+1]...)}
+		cand := &staticCase{Steps: append([]staticStep{}, sc.Steps[from:bad+1]...), Alloc: sc.Alloc}
 		if b, _ := runHistory(cand, false); b == len(cand.Steps)-1 {
 			best = cand
 			break
@@ -217,6 +226,7 @@ func genStaticCase(g *vlib.Rng, big bool) *staticCase {
 		dense.Live = append(dense.Live, Out{Idx: i, Val: uint64(g.Intn(100000)), Scr: g.Bytes(g.Pick(0, 1, 2, 3))})
 	}
 	sc.Steps = append([]staticStep{{Compressed: g.Bool(), Rec: dense}}, sc.Steps...)
+	sc.Alloc = []string{"goheap", "poison", "client"}[g.Intn(3)]
 	return sc
 }
 
@@ -227,6 +237,8 @@ type purgeCase struct {
 	All        bool
 	Height     uint32
 	Recs       []*Rec
+	Alloc      string // goheap | poison (Memory_Free fills the buffer with 0xDD) | client (lib/others/memory, size classes in steady state)
+	ViaFlag    bool   // no PurgeUnspendable call: the records are committed with utxo.UTXO_PURGE_UNSPENDABLE = true (the client's default configuration), which strips unspendable outputs in CommitBlockTxs; expected outcome = that of PurgeUnspendable(true)
 }
 
 func (pc *purgeCase) replay() map[string]interface{} {
@@ -234,7 +246,7 @@ func (pc *purgeCase) replay() map[string]interface{} {
 	for _, rc := range pc.Recs {
 		rs = append(rs, recReplay("rec", pc.Compressed, rc)["rec"])
 	}
-	return map[string]interface{}{"kind": "purge", "compressed": pc.Compressed, "all": pc.All, "height": pc.Height, "recs": rs}
+	return map[string]interface{}{"kind": "purge", "compressed": pc.Compressed, "all": pc.All, "height": pc.Height, "recs": rs, "alloc": pc.Alloc, "via_flag": pc.ViaFlag}
 }
 
 func checkPurge(kind string, pc *purgeCase) {
@@ -244,7 +256,20 @@ func checkPurge(kind string, pc *purgeCase) {
 	for _, rc := range pc.Recs {
 		kb.WriteString(rc.line())
 	}
-	r.Eval("purge-"+mode+":"+kind, fmt.Sprint(mode, pc.All, pc.Height, kb.String()))
+	if pc.Alloc == "" {
+		pc.Alloc = "goheap"
+	}
+	if pc.ViaFlag {
+		pc.All = true
+		kind = "UTXO_PURGE_UNSPENDABLE-on-" + kind
+		utxo.UTXO_PURGE_UNSPENDABLE = true
+		defer func() { utxo.UTXO_PURGE_UNSPENDABLE = false }()
+	}
+	r.Eval("purge-"+mode+"-"+pc.Alloc+":"+kind, fmt.Sprint(mode, pc.Alloc, pc.All, pc.ViaFlag, pc.Height, kb.String()))
+	// PurgeUnspendable decodes a record with the pooled decoder (the scripts of `rec` are sub-slices of the stored buffer),
+	// serialises it and gives the old buffer back: with an allocator whose Free does something, the order matters
+	setAlloc(pc.Alloc)
+	defer setAlloc("goheap")
 	dir, err := os.MkdirTemp("", "vc10")
 	if err != nil {
 		fmt.Fprintln(os.Stderr, "tempdir:", err)
@@ -257,7 +282,7 @@ func checkPurge(kind string, pc *purgeCase) {
 	fail := func(what string) {
 		if !failed {
 			failed = true
-			r.PropFail("purge-"+mode, what+fmt.Sprintf(" (records %d, all=%v, compressed %v)", len(pc.Recs), pc.All, pc.Compressed), rep)
+			r.PropFail("purge-"+mode, what+fmt.Sprintf(" (records %d, all=%v, compressed %v, allocator %s)", len(pc.Recs), pc.All, pc.Compressed, pc.Alloc), rep)
 		}
 	}
 	// what must be there afterwards, from the stored records and the purge's own criterion (script.IsUnspendable)
@@ -308,7 +333,20 @@ func checkPurge(kind string, pc *purgeCase) {
 			ch.AddList = append(ch.AddList, rc.toUtxo())
 		}
 		db.CommitBlockTxs(ch, hash)
-		noStderr(func() { quiet(func() { db.PurgeUnspendable(pc.All) }) })
+		if pc.Alloc == "client" {
+			// steady state of a running node for the size classes the purge will free and allocate in
+			for _, b := range dbBytes(db) {
+				ensureSteady(memClass(len(b)))
+			}
+			for _, rc := range expect {
+				if b, p := implSer(rc); !p && b != nil {
+					ensureSteady(memClass(len(b)))
+				}
+			}
+		}
+		if !pc.ViaFlag {
+			noStderr(func() { quiet(func() { db.PurgeUnspendable(pc.All) }) })
+		}
 		after = dbBytes(db)
 	}()
 	if perr != "" {
@@ -354,10 +392,19 @@ func checkPurge(kind string, pc *purgeCase) {
 			}
 			for v := 0; v < want.N && v < 64; v++ {
 				var t *btc.TxOut
+				pan := ""
 				func() {
-					defer func() { recover() }()
+					defer func() {
+						if e := recover(); e != nil {
+							pan = fmt.Sprint(e)
+						}
+					}()
 					t = d.UnspentGet(&btc.TxPrevOut{Hash: want.TxID, Vout: uint32(v)})
 				}()
+				if pan != "" {
+					fail(fmt.Sprintf("%s: UnspentGet(%x:%d) panics: %s", where, k, v, pan))
+					return
+				}
 				w := liveAt[v]
 				if (w == nil) != (t == nil) || (w != nil && (t.Value != w.Val || !bytes.Equal(t.Pk_script, w.Scr))) {
 					fail(fmt.Sprintf("%s: UnspentGet(%x:%d): unspent=%v, expected unspent=%v with the stored amount and script", where, k, v, t != nil, w != nil))
@@ -366,6 +413,9 @@ func checkPurge(kind string, pc *purgeCase) {
 			}
 		}
 		setMode(false)
+	}
+	if pc.ViaFlag {
+		utxo.UTXO_PURGE_UNSPENDABLE = false // only the commit ran with the flag
 	}
 	judge("after PurgeUnspendable (in memory)", after, db)
 	func() {
@@ -395,7 +445,7 @@ func checkPurge(kind string, pc *purgeCase) {
 }
 
 func genPurgeCase(g *vlib.Rng) *purgeCase {
-	pc := &purgeCase{Compressed: g.Chance(1, 3), All: g.Chance(2, 3), Height: 1 + uint32(g.Intn(800000))}
+	pc := &purgeCase{Compressed: g.Chance(1, 3), All: g.Chance(2, 3), Height: 1 + uint32(g.Intn(800000)), Alloc: []string{"poison", "client", "goheap", "poison"}[g.Intn(4)]}
 	seen := map[[8]byte]bool{}
 	n := 2 + g.Intn(12)
 	for len(pc.Recs) < n {
@@ -426,6 +476,7 @@ func genPurgeCase(g *vlib.Rng) *purgeCase {
 		}
 		pc.Recs = append(pc.Recs, rc)
 	}
+	pc.ViaFlag = g.Chance(1, 8)
 	return pc
 }
 
@@ -442,6 +493,7 @@ func runStatic(g *vlib.Rng) {
 
 func staticFromJSON(m map[string]interface{}) *staticCase {
 	sc := &staticCase{}
+	sc.Alloc, _ = m["alloc"].(string)
 	ss, _ := m["steps"].([]interface{})
 	for _, x := range ss {
 		sm, ok := x.(map[string]interface{})
@@ -463,6 +515,8 @@ func purgeFromJSON(m map[string]interface{}) *purgeCase {
 	pc := &purgeCase{}
 	pc.Compressed, _ = m["compressed"].(bool)
 	pc.All, _ = m["all"].(bool)
+	pc.Alloc, _ = m["alloc"].(string)
+	pc.ViaFlag, _ = m["via_flag"].(bool)
 	h, _ := m["height"].(float64)
 	pc.Height = uint32(h)
 	rs, _ := m["recs"].([]interface{})
